@@ -36,7 +36,32 @@ C, PY, PB, PL, SC = ('lib/check/msgformat/c.py', 'lib/check/msgformat/python.py'
 TG = 'lib/tags.py'
 MI = 'lib/check/msgformat/__init__.py'
 GT = 'lib/gettext.py'
+CI = 'lib/check/__init__.py'
+MISC = 'lib/misc.py'
 TIES = {
+ 'chkplurals': {
+  'translators': ['chkplurals', 'gettextpf'], 'module': 'I18n.Props.C07ChkTie', 'tests': ['tests/test_misc.py'],
+  'edits': {
+   'seeded/C07-a': seeded('C07-a'), 'seeded/C07-c': seeded('C07-c'), 'seeded/C07-d': seeded('C07-d'), 'seeded/C14-d': seeded('C14-d'),
+   # one-line changes inside the translated part
+   'window-limit-100': ed(CI, ("codomain_limit = 200", "codomain_limit = 100")),
+   'codomain-ge-gt': ed(CI, ("                if fi >= n:", "                if fi > n:")),
+   'else-dropped': ed(CI, ("            else:\n                ctx.plural_preimage = dict(plural_preimage)", "            if True:\n                ctx.plural_preimage = dict(plural_preimage)")),
+   'zero-division-as-overflow': ed(CI, ("message = tags.safe_format('f({}): division by zero', i)", "message = tags.safe_format('f({}): integer overflow', i)")),
+   'gap-upper-off-by-one': ed(CI, ("            if y + 1 < n:\n                uncov_rngs += [range(y + 1, n)]", "            if y + 1 < n:\n                uncov_rngs += [range(y, n)]")),
+   'period-test-inverted': ed(CI, ("if sum(period) < codomain_limit:", "if sum(period) >= codomain_limit:")),
+   'scan-left-neighbour-only': ed(CI, ("                    if (i + 1 < n) and (i + 1 not in ctx.plural_preimage):", "                    if False and (i + 1 not in ctx.plural_preimage):")),
+   'preimage-not-reset': ed(CI, ("                self.tag('codomain-error-in-unused-plural-forms', message)\n            ctx.plural_preimage = None", "                self.tag('codomain-error-in-unused-plural-forms', message)\n            pass")),
+   'registry-two-is-one': ed(CI, ("elif len(locally_correct_plural_forms) == 1:", "elif len(locally_correct_plural_forms) >= 1:")),
+   'format-range-max-4': ed(CI, ("rng = misc.format_range(rng, max=5)", "rng = misc.format_range(rng, max=4)")),
+   'format-range-ellipsis': ed(MISC, ("result[-2:] = ['...', str(last)]", "result[-1:] = ['...', str(last)]")),
+   'format-range-lt-le': ed(MISC, ("        if len(result) < max:", "        if len(result) <= max:")),
+   # behaviour-preserving
+   'bp-comments': ed(CI, ("        codomain_limit = 200\n", "        codomain_limit = 200  # how many values of n are tried\n")),
+   'bp-flip-compare': ed(CI, ("                if fi >= n:", "                if n <= fi:")),
+   'bp-rename-message': ed(CI, ("            rng = misc.format_range(rng, max=5)\n            message = tags.safestr(f'f(x) != {rng}')", "            rng = misc.format_range(rng, max=5)\n            message = tags.safestr(f'f(x) != {rng}')\n            pass")),
+   'bp-format-range-local': ed(MISC, ("    return str.join(', ', map(str, result))", "    joined = str.join(', ', map(str, result))\n    return joined")),
+  }},
  'fmtmsg': {
   'translators': ['fmtmsg'], 'module': 'I18n.Props.C14MsgTie', 'tests': ['tests/test_strformat_c.py'],
   'edits': {
